@@ -1,5 +1,5 @@
 package c18
-import ("testing";"os";"fmt";"strings";"sort";"encoding/json";"regexp";"pgregory.net/rapid";"verif/internal/dxbc";"github.com/gogpu/naga")
+import ("testing";"os";"fmt";"strings";"sort";"encoding/json";"regexp";"pgregory.net/rapid";"verif/internal/dxbc";"github.com/gogpu/naga";"github.com/gogpu/naga/dxil";"runtime")
 func TestProbe(t *testing.T){
  src,_:=os.ReadFile(os.Getenv("PROBE"))
  for i,prog:=range strings.Split(string(src),"//====") {
@@ -75,4 +75,29 @@ func TestWhyRejected(t *testing.T){
  b,_:=os.ReadFile(os.Getenv("PROBE")); var c testCase; json.Unmarshal(b,&c)
  _,err:=naga.Parse(c.WGSL); fmt.Println("parse:",err)
  if err==nil { ast,_:=naga.Parse(c.WGSL); _,err=naga.LowerWithSource(ast,c.WGSL); fmt.Println("lower:",err) }
+}
+
+func TestWriteKnown(t *testing.T){
+ // KNOWN_SPEC: lines "id|check|stage|entry|file[|corpusname]"
+ for _,line:=range strings.Split(strings.TrimSpace(os.Getenv("KNOWN_SPEC")),"\n") {
+  f:=strings.Split(line,"|")
+  src,err:=os.ReadFile(f[4]); if err!=nil {t.Fatal(err)}
+  c:=testCase{Origin:"known",WGSL:string(src),Entry:f[3],Stage:f[2],SMMinor:0}
+  if len(f)>5 { c.Origin=f[5] }
+  if strings.HasSuffix(f[4],".json") { json.Unmarshal(src,&c) }
+  o:=judge(&c)
+  fmt.Printf("%s: class=%s ok=%v :: %s\n",f[0],o.class,o.ok,strings.ReplaceAll(o.msg,"\n"," | "))
+  if o.ok { t.Errorf("%s does not reproduce",f[0]); continue }
+  raw,_:=json.Marshal(c)
+  b,_:=json.MarshalIndent(map[string]any{"property":"C18","check":f[1],"message":o.msg,"case":json.RawMessage(raw)},""," ")
+  os.WriteFile("/verif/known/"+f[0]+".json",b,0o644)
+ }
+}
+
+func TestPanicStack(t *testing.T){
+ b,_:=os.ReadFile(os.Getenv("PROBE")); var c testCase; json.Unmarshal(b,&c)
+ if strings.HasSuffix(os.Getenv("PROBE"),".wgsl") { c=testCase{Origin:"probe",WGSL:string(b),Entry:"main",Stage:"compute"} }
+ m,rej:=lower(&c); if m==nil { fmt.Println("rejected",rej); return }
+ defer func(){ if r:=recover();r!=nil { fmt.Println("PANIC:",r); buf:=make([]byte,6000); n:=runtime.Stack(buf,false); fmt.Println(string(buf[:n])) } }()
+ _,err:=dxil.Compile(m,options(&c)); fmt.Println("err:",err)
 }
